@@ -899,13 +899,8 @@ func runC19Round3(c *Ctx) {
 		if fn.Parent() != nil || fn.Name() != "Offer" || fn.Signature.Recv() == nil {
 			continue
 		}
-		adds := calls(fn, func(ci ssa.CallInstruction) bool {
-			if !ci.Common().IsInvoke() || ci.Common().Method.Name() != "Add" {
-				return false
-			}
-			_, path := fieldChain(ci.Common().Value)
-			return len(path) > 0 && strings.Contains(strings.ToLower(path[len(path)-1]), "enqueuefailed")
-		})
+		// the counter increment, in Offer itself or in a helper of the package that Offer calls
+		adds := effectSitesA9(fn, isEnqueueFailedAddA9, 2)
 		var offer ssa.CallInstruction
 		for _, ci := range calls(fn, func(ci ssa.CallInstruction) bool {
 			return ci.Common().IsInvoke() && ci.Common().Method.Name() == "Offer"
@@ -918,29 +913,30 @@ func runC19Round3(c *Ctx) {
 		for _, add := range adds {
 			n++
 			extra := ""
-			for _, g := range guardsOf(add.Block()) {
-				dependsOnErr := false
-				for v := range backSlice(g.Cond) {
-					if v == offer.(ssa.Value) {
-						dependsOnErr = true
-					}
+			levels := guardLevelsA9(add)
+			for li, lv := range levels {
+				var vias []ssa.CallInstruction
+				for _, l := range levels[li:] {
+					vias = append(vias, l.Via)
 				}
-				if !dependsOnErr {
-					continue
-				}
-				// allowed: err != nil
-				if op, x, y, ok := cmpOf(g); ok && (op == token.NEQ || op == token.EQL) && (isNilConst(x) || isNilConst(y)) {
-					continue
-				}
-				// allowed: errors.As(err, &marker) (false side)
-				if v, br := boolOf(g); v != nil {
-					if call, ok := v.(*ssa.Call); ok && calleeOf(call) != nil && calleeOf(call).FullName() == "errors.As" && !br {
+				for _, g := range lv.Guards {
+					if !dependsOnCallA9(g.Cond, vias, offer) {
 						continue
 					}
+					// allowed: err != nil
+					if op, x, y, ok := cmpOf(g); ok && (op == token.NEQ || op == token.EQL) && (isNilConst(x) || isNilConst(y)) {
+						continue
+					}
+					// allowed: errors.As(err, &marker) (false side)
+					if v, br := boolOf(g); v != nil {
+						if call, ok := v.(*ssa.Call); ok && calleeOf(call) != nil && calleeOf(call).FullName() == "errors.As" && !br {
+							continue
+						}
+					}
+					extra = p.Pos(g.If.Pos())
 				}
-				extra = p.Pos(g.If.Pos())
 			}
-			c.Check(extra == "", "enqueue-failed counter in "+fnName(fn)+" counts every refused request", p.Pos(add.Pos()), "guards: err != nil, instrument present, not a post-acceptance marker", "the counter is additionally guarded by a classification of the error (test at "+extra+"): a request that was refused for that reason – e.g. a producer whose context ended while it was blocked on a full queue – is never enqueued and counted nowhere, so sent + failed + enqueue_failed is less than what the exporter was given")
+			c.Check(extra == "", "enqueue-failed counter in "+fnName(fn)+" counts every refused request", p.Pos(add.Effect().Pos()), "guards: err != nil, instrument present, not a post-acceptance marker", "the counter is additionally guarded by a classification of the error (test at "+extra+"): a request that was refused for that reason – e.g. a producer whose context ended while it was blocked on a full queue – is never enqueued and counted nowhere, so sent + failed + enqueue_failed is less than what the exporter was given")
 		}
 	}
 	if n == 0 {
